@@ -1,6 +1,8 @@
 package vc
 
 // propertyNotes: a note starting with "partial:" forces evidence level "other".
-var propertyNotes = map[string]string{}
+var propertyNotes = map[string]string{
+	"C20": "partial: totality / in-bounds of the formatter is proved for all int64 durations; the parser's agreement with time.ParseDuration and the format/parse round trip are not decided by this check.",
+}
 
 var propertyAssumptions = map[string][]string{}
